@@ -85,6 +85,11 @@ func (p *Parser) parseHeader(data []byte) (header *parser.PacketHeader, buf []by
 		}
 
 		header.Attachments = int(attachments)
+		// A count that does not fit into an int would wrap to a negative number
+		// and the packet would never be completed.
+		if header.Attachments < 0 {
+			return nil, nil, "", errMalformedPacket
+		}
 
 		if i+1 < len(data) {
 			data = data[i+1:]
